@@ -4,6 +4,7 @@
 package vtime
 
 import (
+	"sync/atomic"
 	"time"
 
 	"verif/sched"
@@ -13,6 +14,21 @@ type Timer struct {
 	real *time.Timer
 	v    *sched.Timer
 	C    <-chan time.Time
+	// done (real-time path only): 1 once the function has been started, 2 once
+	// stopped before firing. Lets Engine A harnesses ask Armed() and makes the
+	// armed/dead distinction visible to deepdump fingerprints.
+	done atomic.Int32
+}
+
+// Armed reports whether the timer is still going to fire (not fired, not stopped).
+func (t *Timer) Armed() bool {
+	if t == nil {
+		return false
+	}
+	if t.v != nil {
+		return t.v.Pending()
+	}
+	return t.done.Load() == 0
 }
 
 func Now() time.Time {
@@ -38,7 +54,13 @@ func AfterFunc(d time.Duration, f func()) *Timer {
 	if x := sched.Active(); x != nil {
 		return &Timer{v: x.AfterFunc(d, f)}
 	}
-	return &Timer{real: time.AfterFunc(d, f)}
+	t := &Timer{}
+	t.real = time.AfterFunc(d, func() {
+		if t.done.CompareAndSwap(0, 1) {
+			f()
+		}
+	})
+	return t
 }
 
 func (t *Timer) Stop() bool {
@@ -48,7 +70,11 @@ func (t *Timer) Stop() bool {
 		}
 		return t.v.Stop()
 	}
-	return t.real.Stop()
+	ok := t.real.Stop()
+	if ok {
+		t.done.CompareAndSwap(0, 2)
+	}
+	return ok
 }
 
 func (t *Timer) Reset(d time.Duration) bool {
